@@ -1,0 +1,32 @@
+package misc
+
+import (
+	"fmt"
+	"strings"
+)
+
+// RegoStringContent escapes s so that it can be placed between double quotes in generated Rego
+// source: backslashes, double quotes and control characters are written as JSON escapes.
+func RegoStringContent(s string) string {
+	var b strings.Builder
+	for i := 0; i < len(s); i++ {
+		c := s[i]
+		switch {
+		case c == '\\':
+			b.WriteString(`\\`)
+		case c == '"':
+			b.WriteString(`\"`)
+		case c == '\n':
+			b.WriteString(`\n`)
+		case c == '\r':
+			b.WriteString(`\r`)
+		case c == '\t':
+			b.WriteString(`\t`)
+		case c < 0x20:
+			b.WriteString(fmt.Sprintf(`\u%04x`, c))
+		default:
+			b.WriteByte(c)
+		}
+	}
+	return b.String()
+}
